@@ -40,6 +40,16 @@ SPECIAL = [
     'Table "s{".t {\n "{a}" int\n "{0}" int\n}\nRef: "s{".t.("{a}", "{0}") <> "s{".t.("{0}", "{a}") [delete: cascade]\n',
     'Table "t{" {\n "a}" "ty{0}" [note: \'{n}\', default: \'{d}\']\n indexes {\n  "a}" [name: \'{i}\', note: \'{}\']\n }\n Note: \'{t}\'\n}\nEnum "e{" {\n "i}"\n}\n',
     'Table t {\n a int\n "(a)" int [ref: - t."(a)"]\n}\n', 'Table t {\n a int\n " a " int\n}\nRef: t." a " > t.a\n',
+    # a comment at every place where one may stand (one place per document: a syntax error must not hide the others)
+    'Enum e {\n a // the lowest\n b\n}\nTable t {\n id e\n}', 'Enum e {\n a /* blk */\n b [note: \'n\'] // after settings\n}',
+    '// above\nEnum e {\n // above item\n a\n // before close\n}', 'Table t {\n id int // after type\n x int [pk] // after settings\n}',
+    'Table t {\n id int /* blk */ [not null]\n}', 'Table t {\n id int\n indexes {\n id // after index\n (id) [unique] // after settings\n }\n}',
+    'Table t {\n id int\n indexes {\n // above index\n id\n }\n}', 'Table t {\n id int\n}\nRef: t.id > t.id // after ref\n',
+    'Table t {\n id int\n}\n// above ref\nRef r {\n t.id - t.id // inside\n}\n', 'Table t {\n id int\n}\nTableGroup g {\n t // after member\n}',
+    'Project p {\n k: \'v\' // after item\n}', '// above project\nProject p {\n Note: \'n\' // after note\n}',
+    'Table t { // after brace\n id int\n} // after table', '// above\nTable t {\n // inside\n id int\n // before close\n}',
+    'Note s {\n \'x\' // after text\n}', '// above note\nNote s {\n \'x\'\n}', 'Table t {\n id int\n Note: \'tn\' // after note\n}',
+    'Table t as T // after alias\n{\n id int\n}', 'Table t [headercolor: #fff] // after settings\n{\n id int\n}',
 ]
 
 
